@@ -477,10 +477,15 @@ def string_vocabularies(cfg: Any, cap: int = 40) -> List[List[str]]:
             seen.add(tuple(l))
             out.append(l)
 
-    hosts, ips = [], []
+    hosts, ips, refs = [], [], []
 
     def rec(x):
         if isinstance(x, dict):
+            if isinstance(x.get("ref"), str) and "type" in x:
+                refs.append(x["ref"])
+                shared = [c.get("options", {}).get("agent_name") for c in ((x.get("reward_function") or {}).get("reward_components") or [])
+                          if isinstance(c, dict) and c.get("type") == "shared-reward"]
+                add([n for n in shared if isinstance(n, str)])   # the set of agents this one shares from (a set of names in the code)
             if isinstance(x.get("hostname"), str):
                 hosts.append(x["hostname"])
             if isinstance(x.get("ip_address"), str):
@@ -495,6 +500,7 @@ def string_vocabularies(cfg: Any, cap: int = 40) -> List[List[str]]:
     rec(cfg)
     add(hosts)
     add(ips)
+    add(refs)
     return out
 
 
